@@ -445,6 +445,21 @@ def align_names(db):
     return total
 
 
+def normalise_spelling(db):
+    """`x += 1` / `x -= 1` are the same statement as `++x` / `--x` (same value too): one spelling in the fact base"""
+    n = 0
+    for f in db.fn.values():
+        for bid, i, st in f.stmts():
+            for x in nodes(st, lambda y: y.get('k') == 'assign' and y.get('op') in ('+=', '-=') and is_lit(y.get('r'), 1)):
+                e = x['l']
+                op = '++' if x['op'] == '+=' else '--'
+                for k_ in ('l', 'r'):
+                    x.pop(k_, None)
+                x['k'], x['op'], x['e'] = 'un', op, e
+                n += 1
+    return n
+
+
 def load(repo='/repo', defines=()):
     key = (repo, tuple(defines))
     if key not in _cache:
@@ -452,6 +467,7 @@ def load(repo='/repo', defines=()):
         units = extract(repo, defines)
         db = DB(units, repo)
         db.aligned_names = align_names(db)
+        db.respelled = normalise_spelling(db)
         db.extract_s = time.time() - t
         db.defines = tuple(defines)
         _cache[key] = db
